@@ -32,6 +32,8 @@ type SpecCtx struct {
 	clause   string
 	noState  bool // axioms / pure functions: no heap access allowed
 	heapVars map[string]*Term // pure functions with explicit heap parameters
+	callSite bool             // translating a callee's contract at a call site
+	preMod   map[string]bool  // call sites: arrays modified at pre-existing objects before the call (the callee's own effects do not count)
 	fuelVar  string           // inside the body of a recursive pure function
 	curSpec  *specSig
 }
@@ -936,7 +938,10 @@ func (c *SpecCtx) callSpec(sf *specSig, args []*Term) *Term {
 // checkStaticReads: a static spec function denotes its value in the entry heap; it may only be used while every
 // heap array it reads (transitively) still has its entry version.
 func (c *SpecCtx) checkStaticReads(sf *specSig, seen map[string]bool) {
-	if seen[sf.name] {
+	// Static functions denote values in the heap on entry of the function under verification.  In that function's own
+	// clauses this is their meaning by definition; in a callee's contract they stand for the callee's entry heap, i.e. the
+	// caller's heap at the call, so the arrays they read must still be as on entry (at pre-existing objects).
+	if seen[sf.name] || !c.callSite {
 		return
 	}
 	seen[sf.name] = true
@@ -944,10 +949,12 @@ func (c *SpecCtx) checkStaticReads(sf *specSig, seen map[string]bool) {
 		if c.st == nil {
 			continue
 		}
-		if cur, ok := c.st.heap[h]; ok {
-			if e0, ok0 := c.st.heap0[h]; ok0 && cur.S != e0.S {
-				c.fail("static spec function %s reads heap array %s, which has been modified on this path", sf.name, h)
-			}
+		mod := c.st.fullMod[h]
+		if c.preMod != nil {
+			mod = c.preMod[h]
+		}
+		if mod {
+			c.fail("static spec function %s reads heap array %s, which has been modified at pre-existing objects on this path", sf.name, h)
 		}
 	}
 	for _, d := range sf.uses {
@@ -1103,6 +1110,21 @@ func (c *SpecCtx) call(e *Expr, pos bool) *Term {
 		return mk(x.reg.HeapSort(arr), c.heapArr(arr).S)
 	case "frame", "unchanged":
 		return c.frameClause(e, name == "unchanged")
+	case "noKeys":
+		// noKeys("K"): the empty set of K
+		ks, _ := x.sortOfTypeString(c.pkgPath, strArg(0))
+		return mk("(Array "+ks+" Bool)", "((as const (Array "+ks+" Bool)) false)")
+	case "constArray":
+		// constArray("K", v): the array mapping every K to v
+		ks, _ := x.sortOfTypeString(c.pkgPath, strArg(0))
+		v := arg(1)
+		if v.Sort == "Nil" {
+			c.fail("constArray: give the value a sort (e.g. an empty slice expression)")
+		}
+		return mk("(Array "+ks+" "+v.Sort+")", "((as const (Array "+ks+" "+v.Sort+")) "+v.S+")")
+	case "nilOf":
+		_, t := x.sortOfTypeString(c.pkgPath, strArg(0))
+		return x.zero(c.st, t)
 	case "boxframe":
 		// boxframe(r): in every boxed-value heap array only index r may differ from the pre-state
 		r := arg(0)
@@ -1129,8 +1151,38 @@ func (c *SpecCtx) call(e *Expr, pos bool) *Term {
 		x.reg.SeqSort("Ev")
 		v := arg(0)
 		return App("Ev", "ev", IntLit(evClear), App("Int", "ival", v), App("Int", "itag", v), mk("Str", "sempty"))
+	case "frameOldMaps", "unchangedOldMaps":
+		// frameOldMaps(m1, m2, ...): every map object of that type that existed in the pre-state, other than m1, m2, ..., is unchanged
+		// unchangedOldMaps(m): every map object of m's type that existed in the pre-state is unchanged (m only gives the type)
+		m := arg(0)
+		mt, ok := m.T.Underlying().(*types.Map)
+		if !ok {
+			c.fail("%s: not a map", name)
+		}
+		ks, es := x.reg.SortOf(mt.Key()), x.reg.SortOf(mt.Elem())
+		dn, vn := x.reg.MapArrays(ks, es)
+		save := c.inOld
+		c.inOld = false
+		cd, cv := c.heapArr(dn), c.heapArr(vn)
+		c.inOld = true
+		od, ov := c.heapArr(dn), c.heapArr(vn)
+		c.inOld = save
+		base := c.st.alloc0
+		if c.hasOld {
+			base = c.oldAlloc
+		}
+		cond := "(<= r " + base.S + ")"
+		if name == "frameOldMaps" {
+			for i := range e.Args {
+				cond = "(and " + cond + " (not (= r " + arg(i).S + ")))"
+			}
+		}
+		if cd.S == od.S && cv.S == ov.S {
+			return tTrue
+		}
+		return mk("Bool", "(forall ((r Int)) (! (=> "+cond+" (and (= (select "+cd.S+" r) (select "+od.S+" r)) (= (select "+cv.S+" r) (select "+ov.S+" r)))) :pattern ((select "+cd.S+" r)) :pattern ((select "+cv.S+" r))))")
 	case "frameMap":
-		// frameMap(m): every other map object of m's type is as in the pre-state
+		// frameMap(m1, m2, ...): every map object of that type other than m1, m2, ... is as in the pre-state
 		m := arg(0)
 		mt, ok := m.T.Underlying().(*types.Map)
 		if !ok {
@@ -1145,7 +1197,12 @@ func (c *SpecCtx) call(e *Expr, pos bool) *Term {
 		c.inOld = true
 		od, ov := c.heapArr(dn), c.heapArr(vn)
 		c.inOld = save
-		return And(Eq(cd, sto(od, m, sel(cd, m, ds))), Eq(cv, sto(ov, m, sel(cv, m, vs))))
+		for i := range e.Args {
+			mi := arg(i)
+			od = sto(od, mi, sel(cd, mi, ds))
+			ov = sto(ov, mi, sel(cv, mi, vs))
+		}
+		return And(Eq(cd, od), Eq(cv, ov))
 	case "heapOf":
 		// heapOf("H_x"): the current (or old) version of a heap array, for passing to pure functions
 		return c.heapArr(strArg(0))
@@ -1230,7 +1287,7 @@ func (x *Exec) registerSpecs() error {
 			argSorts = append(argSorts, p.sort)
 			parNames = append(parNames, "p_"+sanitize(p.name))
 		}
-		fd := &FuncDecl{Name: sf.Name, Args: argSorts, Ret: sig.ret, Par: parNames, Rec: sf.Rec}
+		fd := &FuncDecl{Name: sf.Name, Args: argSorts, Ret: sig.ret, Par: parNames, Rec: sf.Rec, Opaque: sf.Opaque}
 		if sf.Body != nil {
 			err := catchSpec(func() {
 				st := &State{heap: map[string]*Term{}, heap0: map[string]*Term{}}
